@@ -138,8 +138,17 @@ def buildIndexes (cs : List Node) : Except Err (List (UInt8 × Nat)) :=
 def sortChildren (cs : List Node) : List Node :=
   cs.mergeSort (fun a b => a.priority ≤ b.priority)
 
+/-- Do two siblings carry the same segment text?  This only happens when a pattern has a brace inside a
+parameter name (`/{{a}`): `longestPrefix` then cuts inside the token and a split-off half can equal an
+existing sibling.  The Go code keeps both nodes apart by pointer identity; the model locates a child by
+its text, so such trees are outside the modelled domain (`unsupported`, excluded from the tie). -/
+def hasDupValues : List Node → Bool
+  | [] => false
+  | c :: cs => cs.any (fun d => d.seg.value = c.seg.value) || hasDupValues cs
+
 /-- `node.sort`. -/
 def sortNode (n : Node) : Except Err Node := do
+  if hasDupValues n.children then throw .unsupported
   let cs := sortChildren n.children
   let idx ← buildIndexes cs
   return n.setChildren cs idx
